@@ -1,9 +1,6 @@
-; needs crcstep strs
-; sig crc16 : Str Int -> BV16
+; needs crcstep slotdef
 ; sig crc16tab_at : BV32 -> BV32
 ; sig low16 : BV32 -> BV16
-; sig crcslot : Str -> Int
-; sig keyslot : Str -> Int
 (declare-fun crc16tab_at ((_ BitVec 32)) (_ BitVec 32))
 (define-fun low16 ((c (_ BitVec 32))) (_ BitVec 16) ((_ extract 15 0) c))
 ; table step (proved from the source literal of crc16tab by lemma crc_table_step)
@@ -12,14 +9,5 @@
         (crc_step (low16 c) b))
      :pattern ((crc16tab_at (bvand (bvxor (bvlshr c #x00000008) ((_ zero_extend 24) b)) #x000000ff))))))
 ; crc16 s n : CRC of the first n bytes of s
-(declare-fun crc16 (Str Int) (_ BitVec 16))
 (assert (forall ((s Str)) (! (= (crc16 s 0) #x0000) :pattern ((crc16 s 0)))))
 (assert (forall ((s Str) (n Int)) (! (=> (> n 0) (= (crc16 s n) (crc_step (crc16 s (- n 1)) (s_at s (- n 1))))) :pattern ((crc16 s n)))))
-(define-fun crcslot ((s Str)) Int (bv2nat (bvand (crc16 s (s_len s)) #x3fff)))
-; Redis Cluster key slot: hash only what is between the first '{' and the first '}' after it, if non-empty
-(define-fun keyslot ((k Str)) Int
-  (let ((s (first_idx k #x7b 0)))
-    (ite (< s 0) (crcslot k)
-      (let ((e (first_idx k #x7d (+ s 1))))
-        (ite (or (< e 0) (= e (+ s 1))) (crcslot k)
-             (crcslot (s_sub k (+ s 1) e)))))))
